@@ -69,6 +69,7 @@ def cop(o):
     if k == 'mul': return '(OMul %s %s)' % (cnat(o[1]), cnat(o[2]))
     if k == 'result': return '(OResult %s %s %s %s)' % (cnat(o[1]), costr(o[2]), cz(o[3]), cz(o[4]))
     if k == 'corr': return '(OSetCorr %s %s %s)' % (cnat(o[1]), cnat(o[2]), cz(o[3]))
+    if k == 'append': return '(OAppendEns %s %s)' % (cnat(o[1]), cnat(o[2]))
     if k == 'archive': return 'OArchive'
     if k == 'add': return '(OAdd %s %s)' % (cnat(o[1]), clist(['(%s, %s)' % (cstr(t), cnat(i)) for t, i in o[2]]))
     if k == 'extract': return '(OExtract %s %s)' % (cnat(o[1]), clist([cstr(t) for t in o[2]]))
@@ -228,6 +229,7 @@ class ASession(object):
                     o[:] = [o[0], o[1], o[2], sg[0], sg[1]]
                 new = [core.result(x, o[2])]
             elif k == 'corr': core.set_correlation(o[3] / 8.0, self.objs[o[1]], self.objs[o[2]])
+            elif k == 'append': self.lib.append_real_ensemble(self.objs[o[1]], self.objs[o[2]])
             elif k == 'archive': self.ars.append(pr.Archive())
             elif k == 'add': self.ars[o[1]].add(**{t: self.objs[i] for t, i in o[2]})
             elif k == 'extract':
@@ -320,6 +322,20 @@ def ens_pair(s, rng):
             if ua != ub and ub in s.objs[a]._node.ensemble: return a, b
     return None
 
+def grow_ensemble(s, rng):
+    """declare a new dependent number with the dof of a live ensemble member and append it to that ensemble
+    (what the predictions of a line fit do); returns the index of the new member or None"""
+    e = kinds(s).get('ens', [])
+    if not e: return None
+    m = e[rng.randrange(len(e))]
+    df = s.objs[m]._node.df
+    s.do(['real', None, rng.randint(1, 40), -1 if math.isinf(df) else int(df), False])
+    if s.outcomes[-1] != 'objs': return None
+    x = len(s.objs) - 1
+    if s.objs[x]._node.uid == s.objs[m]._node.uid: return None
+    s.do(['append', m, x])
+    return x
+
 def gen_history(rng, k0, nops, malformed):
     """build a history adaptively while executing it on the implementation"""
     s = ASession(k0)
@@ -351,6 +367,8 @@ def gen_history(rng, k0, nops, malformed):
         elif r < 0.24:
             c = pick(d['plain'] + d['cplain'] + (d['elem'] + d['celem'] + d['interm'] + d['const'] + d['cconst'] if rng.random() < 0.3 else []))
             if c is not None: o = ['result', c, pick(LABELS)]
+        elif r < 0.30 and rng.random() < 0.15 and kinds(s).get('ens'):
+            grow_ensemble(s, rng); continue
         elif r < 0.30:
             ep = ens_pair(s, rng)
             if ep and rng.random() < 0.5: o = ['corr', ep[0], ep[1], rng.choice([-4, -2, 2, 4])]
@@ -501,6 +519,14 @@ EXTRA.append(
      ['read', 0], ['read', 1], ['copy', 0], ['copy', 1], ['extract', 2, ['x1']], ['extract', 3, ['x2', 'x3']], ['mul', 4, 5],
      ['new', 14], ['read', 1], ['read', 0], ['extract', 0, ['x3']], ['new', 15], ['read', 0], ['read', 1]])
 
+# an ensemble that grows after the dump (line-fit predictions append members), then the older document is read / copied,
+# then the ensemble grows again (the set object must still be shared)
+EXTRA.append(
+    [['ens', [(None, 2), (None, 3)], 13], ['archive'], ['add', 0, [('a', 0), ('b', 1)]], ['write', 0, 'json'],
+     ['real', None, 4, 13, False], ['append', 0, 2], ['mul', 2, 1], ['read', 0], ['copy', 0],
+     ['real', None, 5, 13, False], ['append', 1, 4], ['mul', 4, 0], ['write', 0, 'xml'], ['read', 1],
+     ['archive'], ['add', 4, [('y', 2), ('b', 1)]], ['write', 4, 'pickle'], ['new', 14], ['read', 0], ['read', 2], ['new', 15], ['read', 2], ['read', 0]])
+
 def gen_multi(rng, k0):
     """writer session: several archives written at different times sharing dependent influence quantities, with
     correlations declared between the writes; then reader sessions (fresh context id, sometimes the writer's id
@@ -536,6 +562,9 @@ def gen_multi(rng, k0):
                 a, b = rng.sample(ens, 2); s.do(['mul', a, b]); s.do(['result', len(s.objs) - 1, None]); members.append(len(s.objs) - 1)
             if t > 0 and rng.random() < 0.4:
                 a, b = rng.sample(ens, 2); s.do(['corr', a, b, rng.choice([-2, 2, 4])])
+            if t > 0 and rng.random() < 0.5:                 # the ensemble GROWS between the writes
+                x = grow_ensemble(s, rng)
+                if x is not None: ens.append(x)
         if rng.random() < 0.5:
             a, b = pick(deps), pick(deps)
             s.do(['mul', a, b]); s.do(['result', len(s.objs) - 1, pick([None, 'm'])]); members.append(len(s.objs) - 1)
@@ -543,7 +572,10 @@ def gen_multi(rng, k0):
         s.do(['add', ar, [('t%d' % j, m) for j, m in enumerate(members)]])
         s.do(['write', ar, rng.choice(['pickle', 'json', 'json', 'xml'])])
     ndocs = len(s.docs)
-    if rng.random() < 0.4:                                   # shared leaves alive: reload in the writer session
+    if ens and rng.random() < 0.5:
+        x = grow_ensemble(s, rng)
+        if x is not None: s.do(['mul', x, ens[0]])
+    if rng.random() < (0.7 if ens else 0.4):                 # shared leaves alive: reload in the writer session
         for d in rng.sample(range(ndocs), rng.randint(1, ndocs)): s.do(['read', d])
     used = [k0]
     for _ in range(rng.randint(1, 2)):
